@@ -15,7 +15,7 @@ OMP_NUM_THREADS=4 PYTHONPATH="$WT" timeout 1500 /venv/bin/python -m pytest -q -p
 TL=$(tail -1 /tmp/seed_tests_$$.txt | tr -d '"')
 RES=""
 for P in $PROPS; do
-  (cd /verif && VERIF_EVIDENCE_DIR=/tmp/verif_evidence_seeded VERIF_REPO="$WT" timeout 1700 ./check "$P" --tier quick >/tmp/seed_check_$$.txt 2>/dev/null); RC=$?
+  (cd ${VERIF_HOME:-/verif} && VERIF_EVIDENCE_DIR=/tmp/verif_evidence_seeded VERIF_REPO="$WT" timeout 1700 ./check "$P" --tier quick >/tmp/seed_check_$$.txt 2>/dev/null); RC=$?
   OUT=$(grep -E "^VIOLATION|^KNOWN" /tmp/seed_check_$$.txt | head -3 | tr '\n' ';' | tr -d '"')
   RES="$RES{\"prop\":\"$P\",\"exit\":$RC,\"lines\":\"$OUT\"},"
 done
